@@ -615,7 +615,7 @@ func (x *Exec) applyContract(st *State, fr *Frame, dst ssa.Value, callee *ssa.Fu
 			st.setGhost(k, nc)
 			lbl := k[strings.Index(k, "$")+1:]
 			for _, n := range st.heapNames() {
-				if strings.HasPrefix(n, "G$arg$"+lbl+"$") || strings.HasPrefix(n, "G$ret$"+lbl+"$") || strings.HasPrefix(n, "G$panicked$"+lbl) || strings.HasPrefix(n, "G$panicval$"+lbl) || strings.HasPrefix(n, "G$sret$"+lbl+"$") || strings.HasPrefix(n, "G$sarg$"+lbl+"$") {
+				if strings.HasPrefix(n, "G$arg$"+lbl+"$") || strings.HasPrefix(n, "G$ret$"+lbl+"$") || strings.HasPrefix(n, "G$panicked$"+lbl) || strings.HasPrefix(n, "G$panicval$"+lbl) || strings.HasPrefix(n, "G$sret$"+lbl+"$") || strings.HasPrefix(n, "G$sarg$"+lbl+"$") || (strings.HasPrefix(k, "spawned$") && (strings.HasPrefix(n, "G$spawnarg$"+lbl+"$") || strings.HasPrefix(n, "G$spawnfv$"+lbl+"$"))) {
 					oa := st.Heap[n]
 					na := Fresh("log$"+n, oa.Sort)
 					i := BoundVar("i", SInt)
@@ -680,8 +680,31 @@ func (x *Exec) applyContract(st *State, fr *Frame, dst ssa.Value, callee *ssa.Fu
 			st.Assume(Not(Or(pw...)))
 		}
 	}
+	pcBefore := st.PC[:len(st.PC):len(st.PC)]
 	for _, cl := range fc.Of("ensures") {
 		st.Assume(x.V.evalBool(env2, cl.E))
+	}
+	// vacuity guard: a case (antecedent) of a conditional postcondition that was possible before the callee's
+	// postconditions were assumed must still be possible afterwards; otherwise the contract constrains state the call
+	// does not modify and silently prunes that case in the caller
+	for _, cl := range fc.Of("ensures") {
+		if cl.E.Kind != "binop" || cl.E.Op != "==>" {
+			continue
+		}
+		ck := name + "|" + cl.Label
+		if x.caseCovers == nil {
+			x.caseCovers = map[string]int{}
+		}
+		if x.caseCovers[ck] >= 2 {
+			continue
+		}
+		x.caseCovers[ck]++
+		a := x.V.evalBool(env2, cl.E.Args[0])
+		if a.IsTrue() || a.IsFalse() {
+			continue
+		}
+		x.Obls = append(x.Obls, &Obligation{Name: fmt.Sprintf("%s#casecover:%s@call:%s#%d", x.V.P.FuncKey(x.Fn), cl.Label, name, k), Kind: "casecover", Func: x.V.P.FuncKey(x.Fn),
+			Assumes: append(st.PC[:len(st.PC):len(st.PC)], a), Before: append(pcBefore, a), Goal: False, Pos: x.V.P.Pos(pos), Clause: cl.Text, Trace: st.Trace[:len(st.Trace):len(st.Trace)]})
 	}
 	// objects the callee guarantees to be fresh are thread-local to the caller until it shares them
 	freshRe := regexp.MustCompile(`fresh\((result[0-9]*(?:\.[A-Za-z_][A-Za-z0-9_]*)*)\)`)
@@ -1445,6 +1468,12 @@ func (x *Exec) havocLoopImpl(st *State, fr *Frame, l *Loop, cellsOnly bool) {
 		names = append(names, f)
 	}
 	sort.Strings(names)
+	if loopShares(l) {
+		// the body hands objects to other goroutines (send / go): what was thread-local on first arrival need not be
+		// so in a later iteration
+		st.FreshRefs = map[string]bool{}
+		st.FreshList = nil
+	}
 	if needInterf {
 		defer x.interfere(st, "loop head")
 	}
@@ -1504,6 +1533,25 @@ func (x *Exec) staticCallEffects(st *State, c *ssa.CallCommon, fams map[string]b
 	return x.staticCallEffects2(st, c, fams, depth, shared)
 }
 
+// loopShares: the loop body contains an instruction after which fresh objects count as shared.
+func loopShares(l *Loop) bool {
+	for b := range l.Blocks {
+		for _, in := range b.Instrs {
+			switch i := in.(type) {
+			case *ssa.Send, *ssa.Go:
+				return true
+			case *ssa.Select:
+				for _, s := range i.States {
+					if s.Dir == types.SendOnly {
+						return true
+					}
+				}
+			}
+		}
+	}
+	return false
+}
+
 func (x *Exec) sharedFamilies(st *State, fams map[string]bool) {
 	// ghost logs move; monitor-guarded state and channel/waitgroup ghost state change only by
 	// interference (applied once at the loop head, respecting held locks and thread-local objects)
@@ -1549,7 +1597,7 @@ func (x *Exec) staticCallEffects2(st *State, c *ssa.CallCommon, fams map[string]
 			fams["G$"+k] = true
 			lbl := k[strings.Index(k, "$")+1:]
 			for _, n := range st.heapNames() {
-				if strings.HasPrefix(n, "G$arg$"+lbl+"$") || strings.HasPrefix(n, "G$ret$"+lbl+"$") || strings.HasPrefix(n, "G$panicked$"+lbl) || strings.HasPrefix(n, "G$panicval$"+lbl) || strings.HasPrefix(n, "G$sret$"+lbl+"$") || strings.HasPrefix(n, "G$sarg$"+lbl+"$") {
+				if strings.HasPrefix(n, "G$arg$"+lbl+"$") || strings.HasPrefix(n, "G$ret$"+lbl+"$") || strings.HasPrefix(n, "G$panicked$"+lbl) || strings.HasPrefix(n, "G$panicval$"+lbl) || strings.HasPrefix(n, "G$sret$"+lbl+"$") || strings.HasPrefix(n, "G$sarg$"+lbl+"$") || (strings.HasPrefix(k, "spawned$") && (strings.HasPrefix(n, "G$spawnarg$"+lbl+"$") || strings.HasPrefix(n, "G$spawnfv$"+lbl+"$"))) {
 					fams[n] = true
 				}
 			}
